@@ -179,12 +179,8 @@ theorem checkType_ne_tv (env : Env) (orc : Nat → Val → Raw) (horc : ∀ k v,
   cases a
   case none => simp only [checkType]; split <;> simp
   case strAnn n =>
-    simp only [checkType]
-    split
-    · split
-      · split <;> simp
-      · simp
-    · split <;> simp
+    simp only [checkType, strAnnByName, cfg_strBranch.1, cfg_strBranch.2, ↓reduceIte]
+    split <;> split <;> simp
   all_goals (simp only [checkType]; exact wrap_ne_tv ((noTV_raw env orc horc).1 false _ v))
 
 /-- **C08 (checker level), full strength.** `assert_value_matches_type` returns or raises a PedanticException, for every
@@ -193,10 +189,8 @@ theorem checkType_ne_escape (env : Env) (orc : Nat → Val → Raw) (a : Ann) (v
   cases a
   case none => simp only [checkType]; split <;> simp
   case strAnn n =>
-    simp only [checkType, cfg_strGuard, ↓reduceIte]
-    split
-    · split <;> simp
-    · split <;> simp
+    simp only [checkType, strAnnByName, cfg_strBranch.1, cfg_strBranch.2, ↓reduceIte]
+    split <;> split <;> simp
   all_goals (simp only [checkType]; exact wrap_ne_escape _)
 
 
